@@ -282,11 +282,18 @@ Fixpoint flat_cols (prev_opens : bool) (col : nat) (ts : list token) : list (nat
       let col' := match t with RP => col | _ => if prev_opens then col else S col end in
       (col', t) :: flat_cols (opens t) (col' + List.length (tok_text t)) r
   end.
-(* does a quoted list start at or beyond column lim of the single-line rendering? *)
+(* does a quoted list -- or a (:method ...) option or a (defmethod ...) form, whose documentation string node is not
+   moved with its parent either (pp/methodOption.go, pp/defgenmethod.go) -- start at or beyond column lim of the
+   single-line rendering? *)
+Definition method_chars : chars := list_ascii_of_string ":method".
+Definition defmethod_chars : chars := list_ascii_of_string "defmethod".
 Fixpoint quoted_list_beyond (lim : nat) (cts : list (nat * token)) : bool :=
   match cts with
   | (c, QUOTE) :: ((_, LP) :: _) as r => Nat.leb lim c || quoted_list_beyond lim r
-  | (c, LP) :: ((_, ATOM q) :: ((_, LP) :: _)) as r => (chars_eqb q quote_chars && Nat.leb lim c) || quoted_list_beyond lim r
+  | (c, LP) :: ((_, ATOM q) :: ((_, LP) :: _)) as r =>
+      ((chars_eqb q quote_chars || chars_eqb q method_chars) && Nat.leb lim c) || quoted_list_beyond lim r
+  | (c, LP) :: ((_, ATOM q) :: _) as r =>
+      ((chars_eqb q method_chars || chars_eqb q defmethod_chars) && Nat.leb lim c) || quoted_list_beyond lim r
   | _ :: r => quoted_list_beyond lim r
   | [] => false
   end.
